@@ -214,6 +214,7 @@ inductive Outcome
   | errAuthSuccess       -- the error returned by a caller-supplied Authenticator's Success
   | errProvider          -- the error returned by ClusterConfig.AuthProvider for the host
   | errBoth              -- NewSession: "Can't use both Authenticator and AuthProvider in cluster config."
+  | errTlsVerify         -- crypto/tls rejected the server's certificate (WrapTLS returns the handshake error)
   | crash                -- nil `challenger` dereferenced in authenticateHandshake (process dies)
   deriving DecidableEq, Repr
 
@@ -342,6 +343,56 @@ def credentials (cfg : AuthCfg) (host : Nat) : Option (Option AuthImpl) :=
   | some f => match f host with
     | .auth a => some a
     | .err _ => none
+end Spec
+
+/-! ### dialling a host with TLS: `connConfig` (setupTLSConfig) → `defaultHostDialer.DialHost` → `WrapTLS`
+    (tlsConfigForAddr on `HostnameAndPort()`, `tls.Client(...).HandshakeContext`) → `Conn.init` -/
+
+/-- what matters of the certificate a node presents -/
+structure ServerCert where
+  sans : List (List UInt8)      -- subject alternative names (DNS names, IP literals)
+  byTrustedCA : Bool            -- chains to the CA the scenario's CaPath / RootCAs name
+  deriving DecidableEq, Repr
+
+/-- crypto/tls client-side verification (Go library, assumed): nothing is checked with InsecureSkipVerify; otherwise
+    the chain must lead to RootCAs and the certificate must be valid for ServerName.  `rootsHaveCA`: the scenarios'
+    RootCAs, when present, consist of the scenario's CA (system roots never contain it). -/
+def tlsAccepts (insecure rootsHaveCA : Bool) (serverName : List UInt8) (cert : ServerCert) : Bool :=
+  insecure || (rootsHaveCA && cert.byTrustedCA && cert.sans.contains serverName)
+
+structure TlsDial where
+  serverName : List UInt8       -- ServerName of the config handed to crypto/tls for this dial
+  accepted : Bool               -- the TLS handshake completed
+  trace : Trace                 -- what followed on the connection
+  deriving DecidableEq, Repr
+
+/-- one dial of a host (`hostname` = HostInfo.hostname, or the connect address literal when it has none) -/
+def dialTLS (o : SslOpts) (hostname port : List UInt8) (cert : ServerCert) (auth : Option AuthImpl)
+    (fs : List SFrame) : Except TlsErr TlsDial :=
+  match setupTLSConfig o with
+  | .error e => .error e
+  | .ok c =>
+    let sn := (tlsConfigForAddr c.insecure c.serverName (joinHostPort hostname port)).1
+    if tlsAccepts c.insecure c.hasRootCAs sn cert then .ok { serverName := sn, accepted := true, trace := handshake auth fs }
+    else .ok { serverName := sn, accepted := false, trace := .stop .errTlsVerify }
+
+namespace Spec
+/-- the documented table as a function (rows missing from the table would mean "verify") -/
+def mustVerify (o : SslOpts) : Bool := (documented (o.cfg.map (·.insecure)) o.enableHostVerification).getD true
+
+/-- the name the certificate must be valid for: the caller's explicit ServerName, else the host being dialled
+    (an IPv6 literal in brackets, as `net.JoinHostPort` writes it) -/
+def expectedName (o : SslOpts) (hostname : List UInt8) : List UInt8 :=
+  let explicit := (o.cfg.map (·.serverName)).getD []
+  if explicit ≠ [] then explicit
+  else if hostname.contains colon then [91] ++ hostname ++ [93] else hostname
+
+/-- the client has been given the CA: through CaPath or through its own RootCAs -/
+def hasCA (o : SslOpts) : Bool := o.ca = .valid || (o.cfg.map (·.hasRootCAs)).getD false
+
+/-- may anything (in particular credentials) be sent to a node presenting `cert`? -/
+def mayProceed (o : SslOpts) (hostname : List UInt8) (cert : ServerCert) : Bool :=
+  !mustVerify o || (hasCA o && cert.byTrustedCA && cert.sans.contains (expectedName o hostname))
 end Spec
 
 end TlsAuth
